@@ -9,6 +9,7 @@ import os
 import unicodedata
 
 from simkit.world import StopRun
+from ref import bip38 as rbip38, codec as rcodec, secp256k1 as rec
 
 PASSWORDS = ['TestingOneTwoThree', 'Satoshi', 'pässwörd', 'pässword', 'ϓ\u0000\U00010400\U0001f4a9',
              'correct horse battery staple', ' ', 'Ω']
@@ -37,6 +38,7 @@ class C15:
         self.generated = []     # dicts: kind, fields..., fresh (no explicit seed/salt), origin
         self.intermediates = [] # (code, password, explicit_salt)
         self.encrypted = []     # (bip38 string, password, private hex, compressed, address or None)
+        self.lotseq_of = {}     # intermediate code -> (lot, sequence)
         world.log.ev('config', network=self.network)
 
     # -- guarded call with entropy accounting -----------------------------------------------------------------
@@ -89,6 +91,7 @@ class C15:
             return
         w.outcome('intermediate', drawn=drawn, n_known=len(self.intermediates))
         self.intermediates.append((code, pw, explicit))
+        self.lotseq_of[code] = (kw.get('lot'), kw.get('sequence'))
         if not explicit:
             if drawn < 4:
                 w.violation('no_entropy_drawn', {'api': 'bip38_intermediate_password'},
@@ -118,6 +121,11 @@ class C15:
                               {'encrypted_wif': res['encrypted_wif'], 'address': res['address'],
                                'seed': bytes(res['seed']).hex()})
         self.encrypted.append((res['encrypted_wif'], pw, None, compressed, res['address'], ('Key', None)))
+        if ch.coin('ref_create', 0.6):
+            # what an independent BIP38 implementation makes of the new string with the owner's passphrase
+            self.ref_decrypt_check(res['encrypted_wif'], pw, 'Key', None, 'bip38_create_new_encrypted_wif',
+                                   want_address=res['address'], want_compressed=compressed,
+                                   want_lotseq=self.lotseq_of.get(code))
         if res['compressed'] != compressed:
             w.violation('compression_flag_lost', {'api': 'bip38_create_new_encrypted_wif'}, 'asked %s' % compressed)
 
@@ -144,6 +152,30 @@ class C15:
         self.encrypted.append((enc, pw, k.private_hex, compressed, k.address(),
                                ('HDKey', k.witness_type) if hd else ('Key', None)))
         w.outcome('encrypted')
+        if ch.coin('ref_encrypt', 0.6):
+            priv = bytes.fromhex(k.private_hex)
+            pub = rec.pub_from_priv(int.from_bytes(priv, 'big'), compressed)
+            spec = rbip38.encrypt(priv, compressed, pw, rcodec.p2pkh_address(pub, self.network))
+            w.probe('encryption_compared_with_reference')
+            if enc != spec:
+                # which of the two known conventions of the library explains the difference: the passphrase is used as
+                # typed (BIP38: NFC-normalised), the string commits to the address of the key's witness type (BIP38: the
+                # key's P2PKH address)
+                raw = pw.encode('utf-8')
+                p2pkh = rcodec.p2pkh_address(pub, self.network)
+                causes = None
+                for c_pw, c_addr, names in ((raw, p2pkh, ['passphrase_not_nfc_normalised']),
+                                            (pw, k.address(), ['commits_to_non_p2pkh_address']),
+                                            (raw, k.address(), ['passphrase_not_nfc_normalised',
+                                                                'commits_to_non_p2pkh_address'])):
+                    if enc == rbip38.encrypt(priv, compressed, c_pw, c_addr):
+                        causes = names
+                        break
+                for cause in causes or ['other']:
+                    w.violation('encryption_disagrees_with_bip38', {'cause': cause},
+                                '%s(%s, %s).encrypt(%r) = %s, the specification gives %s' %
+                                ('HDKey' if hd else 'Key', 'compressed' if compressed else 'uncompressed',
+                                 getattr(k, 'witness_type', '-'), pw, enc, spec))
 
     def op_decrypt(self):
         ch, w, K = self.ch, self.w, self.K
@@ -181,6 +213,8 @@ class C15:
                 w.violation('address_mismatch_after_decrypt', {'ec_multiplied': priv is None},
                             '%s vs %s' % (k.address(), address))
             w.outcome('decrypted')
+            if ch.coin('ref_decrypt', 0.5):
+                self.ref_decrypt_check(enc, pw, cls, wt, 'decrypt', want_priv=k.private_hex, want_compressed=k.compressed)
         elif how == 'wrong':
             others = [p for p in PASSWORDS if unicodedata.normalize('NFC', p) != unicodedata.normalize('NFC', pw)]
             wrong = others[ch.index('wrongpw', len(others))]
@@ -215,6 +249,48 @@ class C15:
                             'one changed character at %d decrypts to another key (%s)' % (pos, k.address()))
             elif ok:
                 w.probe('corrupted_checksum_not_noticed')
+
+    def ref_decrypt_check(self, enc, pw, cls, wt, api, want_priv=None, want_address=None, want_compressed=None,
+                          want_lotseq=None):
+        """Decrypt with the independent reference and compare with what the library produced / returned."""
+        w = self.w
+
+        def address_of(pub):
+            if cls == 'HDKey' and wt == 'segwit':
+                return rcodec.p2wpkh_address(pub, self.network)
+            if cls == 'HDKey' and wt == 'p2sh-segwit':
+                return rcodec.p2sh_p2wpkh_address(pub, self.network)
+            return rcodec.p2pkh_address(pub, self.network)
+        if want_priv is not None and not enc.startswith('6Pf') and not enc.startswith('6Pg') and \
+                unicodedata.normalize('NFC', pw) != pw:
+            # a plain-mode string of the library: made with the passphrase as typed (reported when it was made)
+            pw = pw.encode('utf-8')
+        try:
+            r = rbip38.decrypt(enc, pw, address_of=address_of)
+        except rbip38.Bip38Error as e:
+            w.violation('result_disagrees_with_bip38', {'api': api, 'what': 'malformed'}, '%s: %s' % (enc, e))
+            return
+        w.probe('decryption_compared_with_reference')
+        sig = {'api': api, 'ec_multiplied': r['ec_multiplied']}
+        if not r['address_ok']:
+            w.violation('result_disagrees_with_bip38', dict(sig, what='address_hash'),
+                        '%s: with the right passphrase the reference derives a key whose address does not match the '
+                        'address hash in the string' % enc)
+        if want_priv is not None and r['priv'].hex() != want_priv:
+            w.violation('result_disagrees_with_bip38', dict(sig, what='private_key'),
+                        '%s: library %s..., reference %s...' % (enc, want_priv[:8], r['priv'].hex()[:8]))
+        if want_compressed is not None and r['compressed'] != bool(want_compressed):
+            w.violation('result_disagrees_with_bip38', dict(sig, what='compression'),
+                        '%s: compression flag %r, expected %r' % (enc, r['compressed'], want_compressed))
+        if want_address is not None:
+            pub = rec.pub_from_priv(int.from_bytes(r['priv'], 'big'), r['compressed'])
+            if rcodec.p2pkh_address(pub, self.network) != want_address:
+                w.violation('result_disagrees_with_bip38', dict(sig, what='address'),
+                            '%s: reported address %s, the reference key has %s' %
+                            (enc, want_address, rcodec.p2pkh_address(pub, self.network)))
+        if want_lotseq is not None and (r['lot'], r['sequence']) != tuple(want_lotseq):
+            w.violation('result_disagrees_with_bip38', dict(sig, what='lot_sequence'),
+                        '%s: lot/sequence %r, asked %r' % (enc, (r['lot'], r['sequence']), want_lotseq))
 
     def op_other(self):
         ch, w, K = self.ch, self.w, self.K
